@@ -20,7 +20,7 @@ pub fn spec() -> Spec {
     Spec {
         prop: "C12",
         level: "exploration",
-        rule: "Real server via start() on loopback, raw HTTP so the Authorization header is arbitrary. Enumerated completely: every registered method (real method table) x {call, notification, batch element first/middle/last mixed with public calls, batch of only notifications; for indexer-only methods also: string id, batch of one, last of a 31-element batch, two indexer-only calls in one batch, notification between public calls, an element that is not a JSON-RPC request in front of the call, a batch of exactly the batch limit and of one less with the call at a varying position} x {no header, wrong user, wrong password, right user + empty password, lower-case scheme, bad base64, two wrong headers, doubled space, suffix-extended credentials, correct} x {auth on, off}. Deny-listed + not authorised => JSON-RPC error 401 for that element and no effect (state digest through authorised reads, incl. an executing read that would stall on an open block, equal before/after); everything else served (no 401). Completeness: each method is also invoked authorised with well-formed parameters on a scratch server and classified by effect (Obs, open block, pool); every method classified mutating must have been refused in the unauthorised sweep; afterwards a fixed authorised script must answer exactly as on a twin server that never saw the sweep. Thorough adds 16 shards of 1 500 random batch compositions each (2..50 elements, 1-3 indexer-only calls at random positions among public calls, notifications and non-requests). Non-trivial = matrix cell whose expectation is 'refused' or 'state must be unchanged'.",
+        rule: "Real server via start() on loopback, raw HTTP so the Authorization header is arbitrary. Enumerated completely: every registered method (real method table) x {call, notification, batch element first/middle/last mixed with public calls, batch of only notifications; for indexer-only methods also: string id, batch of one, last of a 31-element batch, two indexer-only calls in one batch, notification between public calls, an element that is not a JSON-RPC request in front of the call, a batch of exactly the batch limit and of one less with the call at a varying position} x {no header, wrong user, wrong password, right user + empty password, lower-case scheme, bad base64, two wrong headers, doubled space, suffix-extended credentials, correct} x {auth on, off}. Deny-listed + not authorised => JSON-RPC error 401 for that element and no effect (state digest through authorised reads, incl. an executing read that would stall on an open block, equal before/after); everything else served (no 401). Completeness: each method is also invoked authorised with well-formed parameters on a scratch server and classified by effect (Obs, open block, pool); every method classified mutating must have been refused in the unauthorised sweep; afterwards a fixed authorised script must answer exactly as on a twin server that never saw the sweep. Registered methods the harness has no parameters for (aliases, new methods) are called without credentials with the parameters of every indexer-only method and must not change state. Thorough adds 16 shards of 1 500 random batch compositions each (2..50 elements, 1-3 indexer-only calls at random positions among public calls, notifications and non-requests). Non-trivial = matrix cell whose expectation is 'refused' or 'state must be unchanged'.",
         assumptions: vec!["a request carrying two Authorization headers of which one is correct is not judged (HTTP leaves the choice to the server)".into()],
         exhaustive: false,
         min_nontrivial: 2,
@@ -221,7 +221,26 @@ fn sweep(ctx: &WorkerCtx, rep: &mut WorkerReport, auth: bool, methods: &[String]
             for form in forms {
                 st.fresh_hash = crate::hist::bh((0xf00d_0000u64 + st.n + 1) as u64);
                 let Some(params) = template(m, &st) else {
+                    // a registered method this harness has no parameters for (an alias, a new method):
+                    // whatever it is, an unauthorised caller must not be able to change state through it.
+                    // It is tried with the parameters of every indexer-only method.
                     rep.set_add("methods_without_template", m.clone());
+                    if form == "call" && !authorised {
+                        for k in deny.iter() {
+                            st.n += 1;
+                            st.fresh_hash = crate::hist::bh((0xf00d_0000u64 + st.n) as u64);
+                            let Some(pk) = template(k, &st) else { continue };
+                            let body = json!({"jsonrpc": "2.0", "id": 7, "method": m, "params": pk});
+                            let _ = http::post(&srv.addr, headers, &body.to_string(), t);
+                            rep.evaluations += 1;
+                            let d2 = digest(&srv.addr, &dir);
+                            if d2 != dg {
+                                violation(rep, "C12", ctx.seed, &format!("unlisted-method-changed-state:{}", m), format!("auth=true hdr={}: the registered method {} (not on the protected list, unknown to the harness) changed state when called without credentials with the parameters of {}", vname, m, k), json!({"request": body}));
+                                break 'outer;
+                            }
+                        }
+                        rep.nontrivial(format!("unknown-method-probed:{}:{}", vname, m));
+                    }
                     continue;
                 };
                 st.n += 1;
@@ -419,6 +438,21 @@ fn classify(ctx: &WorkerCtx, rep: &mut WorkerReport, methods: &[String], deny: &
             stop(s0);
         }
         rpc::remove_dir(&d0);
+        // registered methods without a template: could one of them initialise a fresh database without credentials?
+        for m in methods.iter().filter(|m| template(m, &st).is_none() && !deny.contains(*m)) {
+            let d1 = rpc::fresh_dir("C12");
+            if let Ok(s1) = start(true, &d1, btc, 50) {
+                let body = json!({"jsonrpc": "2.0", "id": 7, "method": m, "params": {"genesis_hash": hist::ZERO_HASH, "genesis_timestamp": 1, "genesis_height": 0}});
+                let _ = http::post(&s1.addr, &[], &body.to_string(), Duration::from_secs(30));
+                let mut i = Inst::over_http(&d1, &s1.addr, auth_hdr.clone());
+                rep.evaluations += 1;
+                if i.call("eth_getBlockByNumber", json!(["0x0", false])).ok().map(|b| !b.is_null()).unwrap_or(false) {
+                    violation(rep, "C12", ctx.seed, &format!("unlisted-method-changed-state:{}", m), format!("the registered method {} (not on the protected list) initialised a fresh database without credentials", m), json!({"request": body}));
+                }
+                stop(s1);
+            }
+            rpc::remove_dir(&d1);
+        }
     }
     for m in methods {
         st.n += 1;
